@@ -101,7 +101,8 @@ def numeric_fields(v):
 
 
 def representable(v, bound=U32):
-    return all(n <= bound for n in numeric_fields(v))
+    """epoch / release / pre / post / dev fit zerv's u32 fields; numeric local parts have no limit (zerv keeps oversized ones as digits)"""
+    return all(n <= bound for n in numeric_fields(dict(v, local=None)))
 
 
 def _strip(rel):
